@@ -140,7 +140,7 @@ var CfgC11 = reg(&MachineCfg{
 			opt.DidGenesis = g.genDidGenesis(app.MakeEncodingConfig().Codec, world.DIDKeys(), true)
 		}
 	},
-	Bias: map[string]int{"right-signers": 95, "exec": 2, "right-proof": 80, "did-mismatch": 30, "did-replay": 18, "did-retarget": 60, "update-to-empty": 10, "tombstone-proof": 35, "did-deactivate": 16, "did-segment": 12},
+	Bias: map[string]int{"right-signers": 95, "exec": 2, "right-proof": 80, "did-mismatch": 30, "did-replay": 18, "did-retarget": 60, "update-to-empty": 10, "tombstone-proof": 35, "did-deactivate": 16, "did-segment": 12, "did-bare-doc": 14},
 	Rule: "DID machine in which the DID field, the document id and the signed payload are chosen independently (own, other user's, unregistered DIDs) and accepted messages are replayed under other DID fields; oracle = for every active entry under d the stored/read/exported document id is d; non-trivial = >=1 mismatching message carrying an otherwise valid proof",
 	NonTrivial: func(w *world.World) bool {
 		return lab(w, "did mismatching id refused")+w.Obs["c11 mismatching id accepted (open finding)"] > 0
@@ -286,6 +286,13 @@ var CfgC09 = reg(&MachineCfg{
 			// every genesis InitChain accepts, also one the offline validation would refuse
 			opt.PnftGenesis = g.genPnftGenesis(cdc, true)
 		}
+		if g.chance("twin-node-options", 60) {
+			// the twin is started by another operator: node-local flags differ
+			opt.TwinNode = map[string]interface{}{
+				"inv-check-period":                uint(pick(g, "inv-check-period", []int{0, 1, 2, 3, 7})),
+				"x-crisis-skip-assert-invariants": g.chance("skip-genesis-invariants", 50),
+			}
+		}
 	},
 	Gens: withGens("commit", 18, "export", 4, "crash", 1),
 	Bias: map[string]int{"right-signers": 88, "exec": 5, "right-proof": 75, "multi": 12, "group": 8, "big-doc": 14},
@@ -305,7 +312,7 @@ var CfgC10 = reg(&MachineCfg{
 		}
 	},
 	Gens:       withGens("commit", 14, "crash", 5, "crash_redeliver", 6, "crash_endblock", 3, "restart", 2, "export", 1),
-	Bias:       map[string]int{"right-signers": 92, "exec": 3, "right-proof": 80, "group": 8},
+	Bias:       map[string]int{"right-signers": 92, "exec": 3, "right-proof": 80, "group": 8, "did-burst": 10},
 	Rule:       "histories with stop points after Commit, after BeginBlock, after any prefix of a block's txs and after EndBlock-before-Commit: the instance is abandoned and a new application is opened on the same database; oracle = height, app hash and every mounted store equal the committed snapshot, the re-delivered block reproduces its results, and every later block hash equals a twin that never stopped; non-trivial = a crash inside a block after >=1 delivered tx",
 	NonTrivial: func(w *world.World) bool { return lab(w, "crash after delivered txs") > 0 },
 	Step:       burnStep,
